@@ -417,7 +417,7 @@ def random_seq(g, idx, maxlen, hist, TAGS=TAGS, churn=False):
 
 # --------------------------------------------------------------------------- running
 
-def run_harness_limited(binary, lines, max_crashes, timeout=900):
+def run_harness_limited(binary, lines, max_crashes, timeout=None):
     """vlib.run_harness with an upper bound on the number of restarts after a crash; cases not run
     are reported as None.  Returns (outputs, logs, lsan_at_exit)."""
     outs, logs = [], {}
@@ -425,6 +425,8 @@ def run_harness_limited(binary, lines, max_crashes, timeout=900):
     env.setdefault("ASAN_OPTIONS", "detect_leaks=1:abort_on_error=0:halt_on_error=1")
     env.setdefault("UBSAN_OPTIONS", "print_stacktrace=1")
     i, crashes, lsan = 0, 0, False
+    if timeout is None:
+        timeout = 60 + len(lines) // 400      # a clean run needs about 1 s per 3000 sequences
     while i < len(lines):
         if crashes >= max_crashes:
             outs.extend([None] * (len(lines) - i))
@@ -432,8 +434,30 @@ def run_harness_limited(binary, lines, max_crashes, timeout=900):
         chunk = lines[i:]
         try:
             rc, o, e = vlib.sh([str(binary)], inp="\n".join(chunk) + "\n", timeout=timeout, env=env)
-        except subprocess.TimeoutExpired:
-            outs.append("crash:timeout"); logs[len(outs) - 1] = "timeout"; crashes += 1; i = len(outs)
+        except subprocess.TimeoutExpired as ex:
+            # a hang: keep the outputs that arrived, then run the following cases one by one to find the one that hangs
+            part = ex.stdout or ""
+            if isinstance(part, bytes):
+                part = part.decode("utf-8", "replace")
+            done = part.split("\n")[:-1]
+            done = done[:max(0, min(len(done), len(chunk) - 1))]
+            outs.extend(done)
+            j = len(done)
+            found = False
+            while j < len(chunk) and j < len(done) + 400:
+                try:
+                    rc1, o1, e1 = vlib.sh([str(binary)], inp=chunk[j] + "\n", timeout=20, env=env)
+                    outs.append(o1.split("\n")[0] if rc1 == 0 and o1.strip() else vlib.classify_crash(e1, rc1))
+                except subprocess.TimeoutExpired:
+                    outs.append("crash:timeout"); logs[len(outs) - 1] = "no output within 20 s for this single sequence"
+                    found = True
+                    j += 1
+                    break
+                j += 1
+            if not found and j < len(chunk):
+                outs.append("crash:timeout"); logs[len(outs) - 1] = "the process hung; no single sequence hangs on its own"
+            crashes += 1
+            i = len(outs)
             continue
         got = o.split("\n")
         if got and got[-1] == "":
@@ -503,6 +527,17 @@ def run_both(binaries, lines, workers, max_crashes=12):
     return res, dout
 
 
+def follow(line, h, want):
+    """the specification output to hold the implementation against: for histories with armed operations the one
+    that throws where the implementation threw"""
+    if "!" in line and h and "crash:" not in h and not h.startswith(("throw:", "bad-")):
+        try:
+            return spec_follow(line, h)
+        except Exception:
+            return want
+    return want
+
+
 def classify(line, h, d, want):
     """returns list of (kind, key, what) for one case; `want` = specification output (masked)"""
     probs = []
@@ -558,7 +593,7 @@ def shrink(binary, line, key):
         if lsan:
             return True
         for rm in ((False, True) if _RVAL.search(ln) else (False,)):
-            w = spec_line(ln, rm)
+            w = follow(ln, h[0], spec_line(ln, rm)) if not rm else spec_line(ln, rm)
             ps = [p for p in classify(ln, h[0], w, w) if p[0] == "prop"]
             if not any(p[1] == key or key.startswith("crash") and p[1].startswith("crash") for p in ps):
                 return False
@@ -639,7 +674,7 @@ def run(ctx):
                     continue
                 if "!" in line and not h.startswith("crash") and mask(h) == spec_follow(line, h):
                     continue
-                for kind, key, what in classify(line, h, d, want):
+                for kind, key, what in classify(line, h, d, follow(line, h, want)):
                     key = key + "@" + build
                     what = "[%s build] %s" % (build, what)
                     (acc["prop_bad"] if kind == "prop" else acc["corr_bad"]).append(
@@ -665,7 +700,7 @@ def run(ctx):
             if "!" in line and not h.startswith("crash") and mask(h) == spec_follow(line, h):
                 acc["mech"].append((line, h, d))      # another armed operation threw than in the model: not promised
                 continue
-            for kind, key, what in classify(line, h, d, want):
+            for kind, key, what in classify(line, h, d, follow(line, h, want)):
                 if build != "asan":
                     key, what = key + "@" + build, "[%s build] %s" % (build, what)
                 (acc["prop_bad"] if kind == "prop" else acc["corr_bad"]).append(
@@ -789,7 +824,7 @@ def run(ctx):
                 data["input_lines"] = pre + [line]
                 what += " (only after the %d preceding sequences of the same process, recorded in the replay)" % len(pre)
         else:
-            again = [p for p in classify(sline, sh, spec_line(sline), spec_line(sline)) if p[0] == "prop"]
+            again = [p for p in classify(sline, sh, follow(sline, sh, spec_line(sline)), follow(sline, sh, spec_line(sline))) if p[0] == "prop"]
             if again:
                 what = ("[%s build] " % build if build != "asan" else "") + again[0][2]
         data.update({"input_line": sline, "observed": sh[:3000], "expected": spec_line(sline)[:3000],
